@@ -243,4 +243,45 @@ theorem setSubs_of_fits (m : Mesh) (hm : m.Inv) (subs : List (String × Region))
   · intro q hq
     obtain ⟨p, hp, rfl⟩ := List.mem_map.mp hq
     exact ⟨rfl, rfl, rfl, fitsE_congr m _ p.2 _ rfl rfl rfl rfl (h p hp)⟩
+theorem cell_getD (m : Mesh) (a : Nat) (ha : a < m.ndim) : m.cell.getD a 0 = m.cellAt a := by
+  unfold Mesh.cell; rw [getD_tab _ _ _ _ ha]
+
+/-- the mesh built with the parent's cell size on an exactly fitting box: it exists, has that box
+as region, exactly the parent's cell size, and as many cells as the box is long -/
+theorem mkCell_of_fits (m : Mesh) (hm : m.Inv) (s : Region) (h : FitsE m s) :
+    ∃ g, Mesh.mkCell? s m.cell = .ok g ∧ g.region = s ∧ g.subs = [] ∧
+      ∀ a, a < m.ndim → g.cellAt a = m.cellAt a ∧ 0 < g.nAt a ∧ (g.nAt a : Rat) * m.cellAt a = s.edge a := by
+  obtain ⟨hl1, hl2, hax⟩ := h
+  have hsn : s.ndim = m.ndim := hl1
+  have hk : ∀ a, a < s.ndim → 0 < (roundHalfEven (s.edge a / m.cellAt a)).toNat ∧
+      s.edge a = (((roundHalfEven (s.edge a / m.cellAt a)).toNat : Nat) : Rat) * m.cell.getD a 0 := by
+    intro a ha
+    rw [hsn] at ha
+    obtain ⟨z, w, hz0, hw0, hzw, hz, hw⟩ := hax a ha
+    have hc := cellAt_pos m hm a ha
+    have : s.edge a / m.cellAt a = (w : Rat) := by
+      unfold Region.edge; rw [hw]; field_simp
+    rw [this, roundHalfEven_int', cell_getD m a ha]
+    have hwn : ((w.toNat : Nat) : Rat) = (w : Rat) := by
+      have : ((w.toNat : Nat) : Int) = w := Int.toNat_of_nonneg hw0.le
+      exact_mod_cast this
+    refine ⟨by omega, ?_⟩
+    rw [hwn]; exact hw
+  have hmk := mkCell_exact s m.cell (fun a => (roundHalfEven (s.edge a / m.cellAt a)).toNat)
+    (by unfold Mesh.cell; rw [tab_length, hsn])
+    (fun a ha => by rw [cell_getD m a (hsn ▸ ha)]; exact cellAt_pos m hm a (hsn ▸ ha)) hk
+  refine ⟨_, hmk, rfl, rfl, ?_⟩
+  intro a ha
+  obtain ⟨hk0, hke⟩ := hk a (hsn ▸ ha)
+  rw [cell_getD m a ha] at hke
+  have hnat : ({ region := s, n := tab s.ndim fun a => (roundHalfEven (s.edge a / m.cellAt a)).toNat, bc := "", subs := [] } : Mesh).nAt a
+      = (roundHalfEven (s.edge a / m.cellAt a)).toNat := by
+    unfold Mesh.nAt; exact getD_tab _ _ _ _ (hsn ▸ ha)
+  rw [hnat]
+  refine ⟨?_, hk0, hke.symm⟩
+  change s.edge a / ((({ region := s, n := _, bc := "", subs := [] } : Mesh).nAt a : Nat) : Rat) = m.cellAt a
+  rw [hnat]
+  have hkq : (0 : Rat) < (((roundHalfEven (s.edge a / m.cellAt a)).toNat : Nat) : Rat) := by exact_mod_cast hk0
+  generalize (roundHalfEven (s.edge a / m.cellAt a)).toNat = K at hke hkq ⊢
+  rw [div_eq_iff hkq.ne', hke]; ring
 end DFV.C14
